@@ -156,6 +156,7 @@ type c16Acc struct {
 type c16Hs struct {
 	rnd, cert int
 	stage     string // verify | route | send | done
+	heldAtHello bool // ground truth: an Accept was waiting for the hello-random's secret when the hello arrived
 	shown     *tls.Certificate
 	ch        chan<- net.Conn
 	owner     int // the acceptor registered for the secret when the channel was fetched
@@ -179,6 +180,21 @@ func c16Controlled(out *vlib.Out, r *vlib.Rand, nops int) {
 		mops = append(mops, op)
 		outs = append(outs, ans+"/"+d)
 		out.Count("listener-op:" + op[:1] + ":" + strings.SplitN(ans, ":", 2)[0])
+		// Ground truth, independent of the model: between macro steps every goroutine is parked or has
+		// returned, so a secret is registered (in BOTH maps) exactly while a live Accept holds it.  A refused
+		// duplicate, a cancellation or a delivery for one acceptor must not disturb another one's entries.
+		out.Checked()
+		for _, id := range ids {
+			one, _, _ := c16Dump(l, []int{id})
+			hasCert, hasChan := strings.HasPrefix(one, fmt.Sprint(id)+"/"), strings.HasSuffix(one, "/"+fmt.Sprint(id))
+			a, held := holder[id]
+			switch {
+			case held && (!hasCert || !hasChan):
+				fail("C16:waiting-acceptor-lost-registration", fmt.Sprintf("after %s: acceptor %d is still waiting for secret %d but its registration is damaged (certificate registered: %v, channel registered: %v)", op, a, id, hasCert, hasChan))
+			case !held && (hasCert || hasChan):
+				fail("C16:registration-leaked", fmt.Sprintf("after %s: no Accept is waiting for secret %d but it is still registered (certificate %v, channel %v)", op, id, hasCert, hasChan))
+			}
+		}
 	}
 	waitRes := func(a *c16Acc, d time.Duration) (c16AccRes, bool) {
 		select {
@@ -292,6 +308,7 @@ func c16Controlled(out *vlib.Out, r *vlib.Rand, nops int) {
 			}
 			hs := &c16Hs{rnd: rnd, cert: cert, stage: "verify"}
 			hss[h] = hs
+			_, hs.heldAtHello = holder[rnd]
 			shown, err := l.getCertificateFromClientHello(&dtls.ClientHelloInfo{CipherSuites: []dtls.CipherSuiteID{dtls.TLS_ECDHE_ECDSA_WITH_AES_128_GCM_SHA256}, RandomBytes: c16CertsOf(rnd).rnd})
 			ans := "shown:random"
 			if err != nil || shown == nil {
@@ -306,6 +323,10 @@ func c16Controlled(out *vlib.Out, r *vlib.Rand, nops int) {
 				}
 			}
 			record(fmt.Sprintf("H%d:%d:%d", h, rnd, cert), ans)
+			out.Checked()
+			if want := map[bool]string{true: fmt.Sprintf("shown:%d", rnd), false: "shown:random"}[hs.heldAtHello]; ans != want {
+				fail("C16:wrong-certificate-shown", fmt.Sprintf("client hello with the random of secret %d (an Accept is waiting for it: %v) was answered %q, expected %q", rnd, hs.heldAtHello, ans, want))
+			}
 		case x >= 36 && x < 54 && len(verifiable) > 0:
 			h := verifiable[r.Intn(len(verifiable))]
 			hs := hss[h]
@@ -315,6 +336,8 @@ func c16Controlled(out *vlib.Out, r *vlib.Rand, nops int) {
 			if hs.shown != nil {
 				errC = verifyCert(hs.shown.Certificate[0], c16CertsOf(hs.cert).server.Certificate[0])
 			}
+			_, heldNow := holder[hs.rnd]
+			wantOK := hs.heldAtHello && heldNow && hs.cert == hs.rnd
 			if errS == nil && errC == nil {
 				hs.stage = "route"
 				record(fmt.Sprintf("V%d", h), "ok")
@@ -322,10 +345,26 @@ func c16Controlled(out *vlib.Out, r *vlib.Rand, nops int) {
 				hs.stage = "done"
 				record(fmt.Sprintf("V%d", h), "drop")
 			}
+			out.Checked()
+			switch gotOK := errS == nil && errC == nil; {
+			case gotOK && hs.cert != hs.rnd:
+				fail("C16:handshake-with-different-secrets", fmt.Sprintf("hello-random of secret %d with certificates of secret %d passed the verification on both ends", hs.rnd, hs.cert))
+			case gotOK && !wantOK:
+				fail("C16:handshake-with-unregistered-secret", fmt.Sprintf("a handshake for secret %d passed the verification although no Accept held the secret throughout", hs.rnd))
+			case !gotOK && wantOK:
+				fail("C16:same-secret-handshake-rejected", fmt.Sprintf("client and waiting Accept both use secret %d but the verification failed (listener side: %v, dialling side: %v)", hs.rnd, errS, errC))
+			}
 		case x >= 54 && x < 68 && len(routable) > 0:
 			h := routable[r.Intn(len(routable))]
 			hs := hss[h]
 			ch, err := l.chFromID(c16CertsOf(hs.rnd).rnd)
+			out.Checked()
+			if _, held := holder[hs.rnd]; held != (err == nil) {
+				mops = append(mops, fmt.Sprintf("R%d", h))
+				outs = append(outs, "?")
+				fail("C16:routing-disagrees-with-waiting-acceptors", fmt.Sprintf("an established connection for secret %d: an Accept is waiting for it: %v, channel found: %v", hs.rnd, held, err == nil))
+				return
+			}
 			if err != nil {
 				hs.stage = "done"
 				record(fmt.Sprintf("R%d", h), "drop")
@@ -351,6 +390,30 @@ func c16Controlled(out *vlib.Out, r *vlib.Rand, nops int) {
 				// the acceptor that owned the channel has returned: nobody will ever read this connection
 				out.Count("listener:connection-sent-to-returned-acceptor")
 				record(fmt.Sprintf("S%d", h), "sent:lost")
+				break
+			}
+			if r.Chance(1, 4) {
+				// the context is cancelled right behind the send: the select may see both; either outcome is
+				// right, but a returned connection must be this one and nothing may stay registered
+				acc.cancel()
+				res, ok := waitRes(acc, 20*time.Second)
+				if !ok {
+					record(fmt.Sprintf("SX%d", h), "hang")
+					fail("C16:cancel-does-not-return", fmt.Sprintf("acceptor %d was sent a connection and cancelled but did not return", hs.owner))
+					return
+				}
+				acc.state = "done"
+				delete(holder, acc.id)
+				record(fmt.Sprintf("SX%d", h), "sent:either")
+				out.Checked()
+				if fc, isFake := res.conn.(*c16FakeConn); res.err == nil && (!isFake || fc.h != h) {
+					fail("C16:cross-delivery", fmt.Sprintf("acceptor %d was sent connection %d, was cancelled, and returned another connection (%v)", hs.owner, h, res.conn))
+				} else if res.err == nil {
+					out.Count("listener:send-then-cancel:connection-won")
+				} else {
+					out.Count("listener:send-then-cancel:cancel-won")
+				}
+				checkFree(hs.owner, acc.id)
 				break
 			}
 			res, ok := waitRes(acc, 20*time.Second)
